@@ -1,3 +1,4 @@
+pub mod alloc_count;
 pub mod exact;
 pub mod fw;
 pub mod gen;
@@ -8,3 +9,6 @@ pub mod rt;
 pub mod spec;
 pub mod steplog;
 pub mod vtime;
+
+#[global_allocator]
+static GLOBAL: alloc_count::Counting = alloc_count::Counting;
